@@ -121,3 +121,320 @@ theorem agree_rawElement (beh : Behaviour) (s : TermState) (vt : VT) (e : Elemen
     · simp [rawElement, advanceCursor]; cases hc : s.cursor <;> simp <;> (try split) <;> rfl
 
 end Tpp
+
+namespace Tpp
+
+/-- a run of `write_element`s: agreement is kept and the log grows by exactly the requested cells -/
+theorem agree_rawElements (beh : Behaviour) (es : List Element) :
+    ∀ (s : TermState) (vt : VT), Agree s vt → (∀ e ∈ es, e.wf = true) → s.last.isSome = true →
+    Agree (rawElements beh s es).1 (vt.feedAll (rawElements beh s es).2) ∧
+    (∃ entries, (vt.feedAll (rawElements beh s es).2).log = vt.log ++ entries ∧
+        entries.map (·.2.2) = es.map cellOf) ∧
+    (rawElements beh s es).1.last.isSome = true := by
+  induction es with
+  | nil => intro s vt hA _ hk; exact ⟨by simpa [rawElements] using hA, ⟨[], by simp [rawElements], rfl⟩, by simpa [rawElements] using hk⟩
+  | cons e es ih =>
+    intro s vt hA hw hk
+    obtain ⟨hA1, ⟨x, y, hlog, _⟩, hk1⟩ := agree_rawElement beh s vt e hA (hw e (by simp)) hk
+    obtain ⟨hA2, ⟨entries, hent, hcells⟩, hk2⟩ := ih _ _ hA1 (fun e' he' => hw e' (by simp [he'])) hk1
+    simp only [rawElements, VT.feedAll_append]
+    refine ⟨hA2, ⟨(x, y, cellOf e) :: entries, ?_, ?_⟩, hk2⟩
+    · rw [hent, hlog]; simp
+    · simp [hcells]
+
+end Tpp
+
+namespace Tpp
+
+/-- the library's view of where a move goes is where the terminal's cursor ends up -/
+theorem feed_moveCursor (s : TermState) (vt : VT) (hA : Agree s vt) (p : Point)
+    (hx0 : 0 ≤ p.x) (hxw : p.x < s.size.width) (hy0 : 0 ≤ p.y) (hyh : p.y < s.size.height) :
+    vt.feedAll (moveCursorBytes s.cursor p) = { vt with cx := p.x.toNat, cy := p.y.toNat, pending := false } := by
+  obtain ⟨⟨hg, _, _, _, _⟩, hC⟩ := hA
+  have hxw' : p.x.toNat < vt.w := by have := hC.width; omega
+  have hyh' : p.y.toNat < vt.h := by have := hC.height; omega
+  unfold moveCursorBytes
+  cases hc : s.cursor with
+  | none => exact feed_CUP vt hg p hx0 hy0 hxw' hyh'
+  | some c =>
+    obtain ⟨c1, c2, c3, c4, c5, c6, c7⟩ := hC.cursor c hc
+    simp only
+    by_cases h1 : c = p
+    · subst h1; simp only [if_true, VT.feedAll_nil]
+      cases vt; simp_all
+    · simp only [h1, if_false]
+      by_cases h2 : c.y = p.y
+      · simp only [h2, if_true]
+        rw [feed_CHA vt hg p.x hx0 hxw']
+        have : vt.cy = p.y.toNat := by rw [← c4, h2]
+        cases vt; simp_all
+      · simp only [h2, if_false]
+        by_cases h3 : c.x = p.x
+        · simp only [h3, if_true]
+          have hcx : vt.cx = p.x.toNat := by rw [← c3, h3]
+          by_cases h4 : c.y - p.y > 0
+          · simp only [h4, if_true]
+            rw [feed_CUU vt hg _ h4]
+            have : vt.cy - (c.y - p.y).toNat = p.y.toNat := by omega
+            cases vt; simp_all
+          · simp only [h4, if_false]
+            rw [feed_CUD vt hg _ (by omega)]
+            have : min (vt.cy + (-(c.y - p.y)).toNat) (vt.h - 1) = p.y.toNat := by omega
+            cases vt; simp_all
+        · simp only [h3, if_false]
+          exact feed_CUP vt hg p hx0 hy0 hxw' hyh'
+
+theorem agree_moveCursor (beh : Behaviour) (s : TermState) (vt : VT) (hA : Agree s vt) (p : Point)
+    (hw : (Op.moveCursor p).WF s) :
+    Agree (step beh s (.moveCursor p)).1 (vt.feedAll (step beh s (.moveCursor p)).2) := by
+  obtain ⟨hx0, hxw, hy0, hyh⟩ := hw
+  have hf := feed_moveCursor s vt hA p hx0 hxw hy0 hyh
+  obtain ⟨⟨hg, hok, hrend, hcs, hvis⟩, hC⟩ := hA
+  simp only [step]
+  rw [hf]
+  refine ⟨⟨hg, hok, hrend, ?_, hvis⟩, ⟨hC.width, hC.height, ?_, hC.saved⟩⟩
+  · simpa [CharsetAgree] using hcs
+  · intro q hq
+    simp at hq; subst hq
+    have := hC.width; have := hC.height
+    refine ⟨hx0, hy0, rfl, rfl, rfl, ?_, ?_⟩ <;> simp <;> omega
+
+theorem agree_frame (s s' : TermState) (vt vt' : VT) (hA : Agree s vt)
+    (h1 : s'.last = s.last) (h2 : s'.size = s.size) (h3 : s'.cursor = s.cursor) (h4 : s'.saved = s.saved)
+    (h5 : s'.visible = s.visible)
+    (v1 : vt'.ps = vt.ps) (v2 : vt'.malformed = vt.malformed) (v3 : vt'.rend = vt.rend) (v4 : vt'.g0 = vt.g0)
+    (v5 : vt'.utf8 = vt.utf8) (v6 : vt'.cursorVisible = vt.cursorVisible) (v7 : vt'.w = vt.w) (v8 : vt'.h = vt.h)
+    (v9 : vt'.cx = vt.cx) (v10 : vt'.cy = vt.cy) (v11 : vt'.pending = vt.pending) (v12 : vt'.saved = vt.saved) :
+    Agree s' vt' := by
+  obtain ⟨⟨hg, hok, hrend, hcs, hvis⟩, hC⟩ := hA
+  refine ⟨⟨by rw [v1]; exact hg, by rw [v2]; exact hok, ?_, ?_, ?_⟩, ⟨?_, ?_, ?_, ?_⟩⟩
+  · intro e he; rw [v3]; exact hrend e (by rw [← h1]; exact he)
+  · rw [h1]; simpa [CharsetAgree, v4, v5] using hcs
+  · intro b hb; rw [v6]; exact hvis b (by rw [← h5]; exact hb)
+  · rw [h2, v7]; exact hC.width
+  · rw [h2, v8]; exact hC.height
+  · intro p hp; rw [v7, v8, v9, v10, v11]; exact hC.cursor p (by rw [← h3]; exact hp)
+  · intro p hp; rw [v7, v8, v12]; exact hC.saved p (by rw [← h4]; exact hp)
+
+theorem agree_hide (beh) (s : TermState) (vt : VT) (hA : Agree s vt) :
+    Agree (step beh s .hideCursor).1 (vt.feedAll (step beh s .hideCursor).2) := by
+  have hg := hA.1.ground
+  simp only [step]
+  by_cases h : s.visible = some false
+  · simp only [h, if_true, VT.feedAll_nil]
+    exact agree_frame s _ vt vt hA rfl rfl rfl rfl (by simp [h]) rfl rfl rfl rfl rfl rfl rfl rfl rfl rfl rfl rfl
+  · simp only [h, if_false]
+    rw [feed_hide vt hg]
+    obtain ⟨⟨_, hok, hrend, hcs, hvis⟩, hC⟩ := hA
+    refine ⟨⟨hg, hok, hrend, by simpa [CharsetAgree] using hcs, ?_⟩, ⟨hC.width, hC.height, hC.cursor, hC.saved⟩⟩
+    intro b hb; simp at hb; simp [← hb]
+
+theorem agree_show (beh) (s : TermState) (vt : VT) (hA : Agree s vt) :
+    Agree (step beh s .showCursor).1 (vt.feedAll (step beh s .showCursor).2) := by
+  have hg := hA.1.ground
+  simp only [step]
+  by_cases h : s.visible = some true
+  · simp only [h, if_true, VT.feedAll_nil]
+    exact agree_frame s _ vt vt hA rfl rfl rfl rfl (by simp [h]) rfl rfl rfl rfl rfl rfl rfl rfl rfl rfl rfl rfl
+  · simp only [h, if_false]
+    rw [feed_show vt hg]
+    obtain ⟨⟨_, hok, hrend, hcs, hvis⟩, hC⟩ := hA
+    refine ⟨⟨hg, hok, hrend, by simpa [CharsetAgree] using hcs, ?_⟩, ⟨hC.width, hC.height, hC.cursor, hC.saved⟩⟩
+    intro b hb; simp at hb; simp [← hb]
+
+theorem agree_save (beh) (s : TermState) (vt : VT) (hA : Agree s vt) :
+    Agree (step beh s .saveCursor).1 (vt.feedAll (step beh s .saveCursor).2) := by
+  have hg := hA.1.ground
+  simp only [step]
+  rw [feed_save vt hg]
+  obtain ⟨⟨_, hok, hrend, hcs, hvis⟩, hC⟩ := hA
+  refine ⟨⟨hg, hok, hrend, by simpa [CharsetAgree] using hcs, hvis⟩, ⟨hC.width, hC.height, hC.cursor, ?_⟩⟩
+  intro p hp
+  obtain ⟨c1, c2, c3, c4, c5, c6, c7⟩ := hC.cursor p hp
+  exact ⟨c1, c2, by simp [c3, c4], by simpa [c3] using c6, by simpa [c4] using c7⟩
+
+theorem agree_restore (beh) (s : TermState) (vt : VT) (hA : Agree s vt) :
+    Agree (step beh s .restoreCursor).1 (vt.feedAll (step beh s .restoreCursor).2) := by
+  have hg := hA.1.ground
+  simp only [step]
+  rw [feed_restore vt hg]
+  obtain ⟨⟨_, hok, hrend, hcs, hvis⟩, hC⟩ := hA
+  cases hs : s.saved with
+  | none =>
+    have hc : ∀ cx cy : Nat, Agree { s with cursor := none } { vt with cx := cx, cy := cy, pending := false } := by
+      intro cx cy
+      refine ⟨⟨hg, hok, hrend, by simpa [CharsetAgree] using hcs, hvis⟩,
+        ⟨hC.width, hC.height, (by intro p hp; cases hp), hC.saved⟩⟩
+    cases hv : vt.saved with
+    | none => simpa [hv, hs] using hc 0 0
+    | some q => obtain ⟨x, y⟩ := q; simpa [hv, hs] using hc x y
+  | some p =>
+    obtain ⟨s1, s2, s3, s4, s5⟩ := hC.saved p hs
+    rw [s3]
+    refine ⟨⟨hg, hok, hrend, by simpa [CharsetAgree] using hcs, hvis⟩, ⟨hC.width, hC.height, ?_, ?_⟩⟩
+    · intro q hq; simp at hq; subst hq
+      exact ⟨s1, s2, rfl, rfl, rfl, s4, s5⟩
+    · intro q hq
+      have := hC.saved q (by rw [hs]; exact hq)
+      simpa [s3] using this
+
+end Tpp
+
+namespace Tpp
+
+theorem defaultAttr_valid : (({} : Attr)).valid = true := by decide
+
+/-- an erase manipulator first makes the rendition default, then clears exactly its region -/
+theorem feed_eraseOp (beh : Behaviour) (s : TermState) (vt : VT) (hA : Agree s vt) (k : EraseKind) :
+    vt.feedAll (step beh s (.erase k)).2 = ({ vt with rend := {} } : VT).eraseWhere (eraseRegion k vt.cx vt.cy) := by
+  obtain ⟨⟨hg, hok, hrend, hcs, hvis⟩, hC⟩ := hA
+  simp only [step, changeToDefault]
+  cases hl : s.last with
+  | none =>
+    simp only [List.append_assoc, VT.feedAll_append]
+    rw [VT.feed_sgr0 vt hg, ← VT.feedAll_append, feed_erase _ (by simpa using hg) k]
+  | some l =>
+    simp only [List.append_assoc, VT.feedAll_append]
+    rw [feed_changeAttribute vt hg l.attr {} defaultAttr_valid (hrend l hl), rendOf_default,
+      ← VT.feedAll_append, feed_erase _ (by simpa using hg) k]
+
+theorem agree_erase (beh : Behaviour) (s : TermState) (vt : VT) (hA : Agree s vt) (k : EraseKind) :
+    Agree (step beh s (.erase k)).1 (vt.feedAll (step beh s (.erase k)).2) := by
+  rw [feed_eraseOp beh s vt hA k]
+  obtain ⟨⟨hg, hok, hrend, hcs, hvis⟩, hC⟩ := hA
+  simp only [step, changeToDefault]
+  cases hl : s.last with
+  | none =>
+    refine ⟨⟨hg, hok, ?_, ?_, hvis⟩, ⟨hC.width, hC.height, hC.cursor, hC.saved⟩⟩
+    · intro e he; simp at he; subst he; simp [VT.eraseWhere, rendOf_default]
+    · simpa [hl, CharsetAgree, VT.eraseWhere] using hcs
+  | some l =>
+    refine ⟨⟨hg, hok, ?_, ?_, hvis⟩, ⟨hC.width, hC.height, hC.cursor, hC.saved⟩⟩
+    · intro e he; simp at he; subst he; simp [VT.eraseWhere, rendOf_default]
+    · simpa [hl, CharsetAgree, VT.eraseWhere] using hcs
+
+/-- mode switches and the title touch neither the belief nor anything the belief speaks about -/
+theorem agree_modes (s : TermState) (vt : VT) (hA : Agree s vt) (on : Bool) (n : Nat) (hn : n ≠ 25) :
+    Agree s (vt.setMode on n) := by
+  unfold VT.setMode
+  simp only [hn, if_false]
+  split
+  · exact agree_frame s s vt _ hA rfl rfl rfl rfl rfl rfl rfl rfl rfl rfl rfl rfl rfl rfl rfl rfl rfl
+  · split
+    · exact agree_frame s s vt _ hA rfl rfl rfl rfl rfl rfl rfl rfl rfl rfl rfl rfl rfl rfl rfl rfl rfl
+    · split
+      · exact agree_frame s s vt _ hA rfl rfl rfl rfl rfl rfl rfl rfl rfl rfl rfl rfl rfl rfl rfl rfl rfl
+      · exact hA
+
+theorem feed_mouse (beh : Behaviour) (vt : VT) (hg : vt.ps = .ground) (on : Bool) :
+    vt.feedAll (mouseBytes beh (if on then Consts.dec_pm_set else Consts.dec_pm_reset)) =
+      (if beh.basicMouse then vt.setMode on 1000 else if beh.allMouse then vt.setMode on 1003 else vt) := by
+  have hs : Consts.dec_pm_set = [0x68] := by decide
+  have hr : Consts.dec_pm_reset = [0x6C] := by decide
+  unfold mouseBytes
+  by_cases h1 : beh.basicMouse = true
+  · simp only [h1, if_true]
+    rw [basicMouse_eq]
+    cases on
+    · exact feed_mode vt hg _ 1000 0x6C false (by simp [hr]) (Or.inr ⟨rfl, rfl⟩)
+    · exact feed_mode vt hg _ 1000 0x68 true (by simp [hs]) (Or.inl ⟨rfl, rfl⟩)
+  · simp only [h1, Bool.false_eq_true, if_false]
+    by_cases h2 : beh.allMouse = true
+    · simp only [h2, if_true]
+      rw [allMouse_eq]
+      cases on
+      · exact feed_mode vt hg _ 1003 0x6C false (by simp [hr]) (Or.inr ⟨rfl, rfl⟩)
+      · exact feed_mode vt hg _ 1003 0x68 true (by simp [hs]) (Or.inl ⟨rfl, rfl⟩)
+    · simp [h2]
+
+theorem feed_titleOp (beh : Behaviour) (vt : VT) (hg : vt.ps = .ground) (t : List Byte) (ht : titleClean t = true) :
+    vt.feedAll (titleBytes beh t) = (if beh.titleBel || beh.titleSt then { vt with title := t } else vt) := by
+  unfold titleBytes
+  by_cases h1 : beh.titleBel = true
+  · simp only [h1, if_true, Bool.true_or]; exact feed_title_bel vt hg t ht
+  · simp only [h1, Bool.false_eq_true, if_false, Bool.false_or]
+    by_cases h2 : beh.titleSt = true
+    · simp only [h2, if_true]; exact feed_title_st vt hg t ht
+    · simp [h2]
+
+/-- a resize event: the belief forgets both positions, so whatever the terminal chose is consistent -/
+theorem agree_resize (beh : Behaviour) (s : TermState) (vt : VT) (hA : Agree s vt)
+    (w h : Nat) (cells : Bool → Grid) (cx cy : Nat) (saved : Option (Nat × Nat)) (pending : Bool) :
+    Agree (Sys.step beh (s, vt) (.resize w h cells cx cy saved pending)).1
+          (Sys.step beh (s, vt) (.resize w h cells cx cy saved pending)).2 := by
+  obtain ⟨⟨hg, hok, hrend, hcs, hvis⟩, hC⟩ := hA
+  simp only [Sys.step, step, VT.resize]
+  exact ⟨⟨hg, hok, hrend, by simpa [CharsetAgree] using hcs, hvis⟩,
+    ⟨rfl, rfl, (by intro p hp; cases hp), (by intro p hp; cases hp)⟩⟩
+
+/-- **the simulation step**: every in-domain event preserves the agreement between belief and terminal -/
+theorem agree_step (beh : Behaviour) (s : TermState) (vt : VT) (hA : Agree s vt) (ev : Ev) (hw : ev.WF s) :
+    Agree (Sys.step beh (s, vt) ev).1 (Sys.step beh (s, vt) ev).2 := by
+  cases ev with
+  | resize w h cells cx cy saved pending => exact agree_resize beh s vt hA w h cells cx cy saved pending
+  | op o =>
+    simp only [Sys.step]
+    have hg := hA.1.ground
+    cases o with
+    | writeElement e =>
+      obtain ⟨hA1, hk1, _, _, _⟩ := agree_defaultAttr s vt hA
+      obtain ⟨hA2, _, _⟩ := agree_rawElement beh _ _ e hA1 hw hk1
+      simpa [step, VT.feedAll_append] using hA2
+    | writeString es =>
+      obtain ⟨hA1, hk1, _, _, _⟩ := agree_defaultAttr s vt hA
+      obtain ⟨hA2, _, _⟩ := agree_rawElements beh es _ _ hA1 hw hk1
+      simpa [step, VT.feedAll_append] using hA2
+    | rawElement e => exact (agree_rawElement beh s vt e hA hw.1 hw.2).1
+    | defaultAttr => exact (agree_defaultAttr s vt hA).1
+    | moveCursor p => exact agree_moveCursor beh s vt hA p hw
+    | hideCursor => exact agree_hide beh s vt hA
+    | showCursor => exact agree_show beh s vt hA
+    | saveCursor => exact agree_save beh s vt hA
+    | restoreCursor => exact agree_restore beh s vt hA
+    | erase k => exact agree_erase beh s vt hA k
+    | enableMouse =>
+      have := feed_mouse beh vt hg true
+      simp only [if_true] at this
+      simp only [step]; rw [this]
+      split
+      · exact agree_modes s vt hA true 1000 (by decide)
+      · split
+        · exact agree_modes s vt hA true 1003 (by decide)
+        · exact hA
+    | disableMouse =>
+      have := feed_mouse beh vt hg false
+      simp only [Bool.false_eq_true, if_false] at this
+      simp only [step]; rw [this]
+      split
+      · exact agree_modes s vt hA false 1000 (by decide)
+      · split
+        · exact agree_modes s vt hA false 1003 (by decide)
+        · exact hA
+    | setTitle t =>
+      simp only [step]; rw [feed_titleOp beh vt hg t hw]
+      split
+      · exact agree_frame s s vt _ hA rfl rfl rfl rfl rfl rfl rfl rfl rfl rfl rfl rfl rfl rfl rfl rfl rfl
+      · exact hA
+    | normalBuffer =>
+      simp only [step]
+      rw [feed_mode vt hg _ 47 0x6C false normalBufferBytes_eq (Or.inr ⟨rfl, rfl⟩)]
+      exact agree_modes s vt hA false 47 (by decide)
+    | altBuffer =>
+      simp only [step]
+      rw [feed_mode vt hg _ 47 0x68 true altBufferBytes_eq (Or.inl ⟨rfl, rfl⟩)]
+      exact agree_modes s vt hA true 47 (by decide)
+    | setSize e => exact absurd hw (by simp [Ev.WF, Op.WF])
+
+/-- **the simulation theorem**: agreement holds after every in-domain history -/
+theorem agree_run (beh : Behaviour) (evs : List Ev) :
+    ∀ (st : TermState × VT), Agree st.1 st.2 → RunWF beh st evs →
+      Agree (Sys.run beh st evs).1 (Sys.run beh st evs).2 := by
+  induction evs with
+  | nil => intro st hA _; exact hA
+  | cons ev evs ih =>
+    intro st hA hw
+    obtain ⟨h1, h2⟩ := hw
+    have := agree_step beh st.1 st.2 hA ev h1
+    exact ih (Sys.step beh st ev) this h2
+
+end Tpp
